@@ -144,6 +144,10 @@ func (r *subRegistry) Repositories(ctx context.Context, startAfter string) ocire
 	p := r.prefix + "/"
 	return func(yield func(string, error) bool) {
 		// TODO(go1.23): for name, err := range r.r.Repositories(ctx)
+		if startAfter != "" {
+			// The start point is a name inside the view too.
+			startAfter = p + startAfter
+		}
 		r.r.Repositories(ctx, startAfter)(func(repo string, err error) bool {
 			if err != nil {
 				yield("", err)
